@@ -132,6 +132,9 @@ impl<'e> Sim<'e> {
                 }
             }
         }
+        if cfg.marathon > 0 {
+            marathon(world.caches[0].as_mut().unwrap(), &cfg, env.overhead);
+        }
         clear_events();
         let mut sim = Sim {
             env,
@@ -157,10 +160,14 @@ impl<'e> Sim<'e> {
             acct_broken: false,
         };
         let cap = sim.world.caches[0].as_ref().unwrap().capacity();
-        if cfg.prefill == 0 {
+        if cfg.prefill == 0 && cfg.marathon == 0 {
             sim.tracker.new_cache(0, &cfg, cap);
         } else {
-            sim.tracker.slots[0].peak_len = cfg.prefill as usize;
+            // entries have come and gone already: no with_capacity window; whatever capacity the
+            // unchecked phase ended with is the baseline
+            let len = sim.world.caches[0].as_ref().unwrap().len();
+            sim.tracker.slots[0].peak_len = (cfg.prefill as usize).max(len).max(if cfg.marathon > 0 { cap } else { 0 });
+            sim.tracker.slots[0].max_req_cap = cap;
         }
         sim
     }
@@ -324,7 +331,7 @@ impl<'e> Sim<'e> {
                     props |= match &op.kind {
                         OpKind::Retain { .. } => C15,
                         OpKind::IterScript { .. } => C12,
-                        OpKind::CloneTo => C14,
+                        OpKind::CloneTo | OpKind::CloneFrom => C14,
                         OpKind::DebugFmt => C05,
                         _ => 0,
                     };
@@ -409,7 +416,7 @@ impl<'e> Sim<'e> {
         let held: Vec<u32> = self.world.held_k.iter().map(|k| k.tok).chain(self.world.held_v.iter().map(|v| v.tok)).collect();
         let mut findings = Vec::new();
         let post = self.observe_all(&mut findings);
-        if matches!(op.kind, OpKind::CloneTo) && self.relaxed.is_none() {
+        if op.kind.is_clone() && self.relaxed.is_none() {
             // a clone that is not even a coherent cache (or whose links point into the source)
             // is not "an equal and fully independent cache"
             let o = 1 - t;
@@ -678,7 +685,7 @@ impl<'e> Sim<'e> {
                     }
                 }
             }
-            OpKind::CloneTo => {
+            OpKind::CloneTo | OpKind::CloneFrom => {
                 if tomb_before {
                     self.probes.hit("clone_with_tombstones");
                 }
@@ -733,6 +740,49 @@ impl<'e> Sim<'e> {
         alloc::set_tracking(false);
         leaked.len()
     }
+}
+
+/// "However long the history": more than 2^20 unchecked churn operations (FIFO insertions of ever-new
+/// keys that evict, growing and shrinking mutates of recent entries — a growth of a full cache evicts —
+/// and promotions), derived from the configuration's salt.  Whatever damage they do must show in the
+/// checked history that follows (structure, accounting, ledger).
+fn marathon(c: &mut Cache, cfg: &Config, overhead: usize) {
+    let mut rng = Rng::new(cfg.salt ^ 0x6d61_7261);
+    let vh = cfg.prefill_vh;
+    let k = (cfg.max_size / (overhead + vh).max(1)).clamp(1, 4096);
+    let mut recent: Vec<u32> = Vec::with_capacity(k);
+    let mut next_id: u32 = 50_000_000;
+    let r = catch_unwind(AssertUnwindSafe(|| {
+        for i in 0..cfg.marathon {
+            match rng.below(8) {
+                0..=4 => {
+                    next_id += 1;
+                    let _ = c.insert(SimKey::new(next_id, 0), SimVal::new(vh));
+                    if recent.len() >= k {
+                        recent.remove(0);
+                    }
+                    recent.push(next_id);
+                }
+                5 | 6 if !recent.is_empty() => {
+                    let id = recent[rng.usize_below(recent.len())];
+                    let grow = rng.bool();
+                    let _ = c.mutate(&KeyId(id), |v| v.heap = if grow { vh + 8 } else { vh });
+                }
+                _ if !recent.is_empty() => {
+                    let id = recent[rng.usize_below(recent.len())];
+                    let _ = c.get(&KeyId(id));
+                }
+                _ => {}
+            }
+            if i % 512 == 511 {
+                clear_events();
+                crate::coord::heartbeat();
+            }
+        }
+    }));
+    let _ = r;
+    clear_events();
+    // ledger violations noticed during the marathon stay queued: the first checked step reports them
 }
 
 fn outcome_digest(o: &Outcome) -> u64 {
@@ -798,6 +848,7 @@ fn outcome_digest(o: &Outcome) -> u64 {
             for it in items {
                 match it {
                     IterItem::None => d.u64(0),
+                    IterItem::Count(c) => d.u64(0xC0 + *c as u64),
                     IterItem::Pair { ktok, vtok, .. } => d.u64(((*ktok as u64) << 32 | *vtok as u64) + 1),
                     IterItem::Key { ktok, .. } => d.u64(*ktok as u64 + 1),
                     IterItem::Val { vtok, .. } => d.u64(*vtok as u64 + 1),
@@ -863,6 +914,15 @@ pub fn run_generated(env: &Env, prop: &str, thorough: bool, verif_seed: u64, run
         cfg.prefill = cfg.prefill.min(40);
     }
     let mut sim = Sim::new(env, cfg.clone(), 0);
+    if cfg.marathon > 0 {
+        sim.probes.hit("marathon_runs_over_2pow20_unchecked_ops");
+    }
+    if cfg.prefill > 60_000 {
+        sim.probes.hit("giant_cache_runs_over_2pow16_entries");
+    }
+    if cfg.mode == HashMode::Rekey {
+        sim.probes.hit("runs_with_rekeying_hasher_clone");
+    }
     let mut ops: Vec<Op> = Vec::with_capacity(steps + 8);
     // initial observation happens inside the first step; the generator needs one before that
     {
